@@ -433,6 +433,8 @@ def gen_nts(rng, ver=None, valid=None):
         for _ in range(rng.choice([0, 0, 1, 2, 3, 7, 8, 9])):
             pre.append(("h", field(ver, T_PLACEHOLDER, bytes(COOKIE_LEN[alg] + rng.choice([0, 0, 0, -4, 4, 64])))))
     else:
+        if rng.random() < 0.3:
+            kinds = [x for x in kinds if x != "uid"]         # no unique identifier at all
         for _ in range(npre):
             pre.append(("h", gen_clear_field(rng, ver, kinds)))
         ck = ("c", "c%d.%s.%d.%d" % (alg, cookie_key(rng, c), rng.choice([0, 0, 4]), sess))
